@@ -198,6 +198,16 @@ func runC03(c *fw.Ctx) {
 			}
 		})
 	}
+	// element-wise operations on operands with a history (results of MatMul / Patch / Reshape / Full ... used again)
+	for i := 0; i < c.Pick(3000, 40000); i++ {
+		c.Case(func(k *fw.K) {
+			p := genChain(k.Rng, 3+k.Rng.Intn(6))
+			k.Case = c01case{Family: "forward chain: element-wise operations on operands with a history", Prog: p}
+			k.Key("%s", chainKey(p))
+			k.Count("chain_cases", 1)
+			runChain(k, p)
+		})
+	}
 	// huge tensors (>= 16384 and >= 65536 elements; leading sizes that are not multiples of 8 / 32 / the element count over 8)
 	huge := [][]int{{100, 200}, {33, 500}, {129, 128}, {4097, 4}, {16385}, {100, 700}, {70001}, {9, 90, 90}, {67, 33, 31}}
 	if c.Quick() {
